@@ -81,15 +81,26 @@ Proof.
   intros _. right. split; [reflexivity|]. apply Nat.leb_le. exact E2.
 Qed.
 
+Lemma fold_cancel_fields ooa : forall c, no_run_cancel ooa = true ->
+  c_run_cancelled (fold_left apply_cancel ooa c) = c_run_cancelled c /\
+  c_start_awaited (fold_left apply_cancel ooa c) = c_start_awaited c /\
+  c_started (fold_left apply_cancel ooa c) = c_started c /\
+  c_awaited (fold_left apply_cancel ooa c) = c_awaited c.
+Proof.
+  induction ooa as [|k r IH]; cbn; intros c H; [auto|].
+  destruct k; [|discriminate]. destruct (IH (apply_cancel c CcStart) H) as (A & B & C & D).
+  rewrite A, B, C, D. cbn. auto.
+Qed.
+
 Ltac inst_case H :=
   match type of H with
   | context [nth_error ?l ?i] =>
       let E := fresh "En" in destruct (nth_error l i) as [[| | |]|] eqn:E; try discriminate H
   end.
 
-Lemma estep_inv st e st' : einv st -> estep false st e = Some st' -> einv st'.
+Lemma estep_inv ooa st e st' : no_run_cancel ooa = true -> einv st -> estep ooa st e = Some st' -> einv st'.
 Proof.
-  intros [Ic In Is Ip Il If] H. destruct st as [w c a]. cbn in *.
+  intros NR [Ic In Is Ip Il If] H. destruct st as [w c a]. cbn in *.
   destruct e; unfold estep in H; cbn [e_w e_c e_a] in H.
   - (* EStart *)
     destruct (negb (c_start_awaited c) && (0 <? w_tostart w)) eqn:G; [|discriminate]. inversion H; subst; clear H.
@@ -190,7 +201,9 @@ Proof.
       assert (C2 : c_run_cancelled c0 = false /\ c_start_awaited c0 = c_start_awaited c /\
                    c_started c0 = c_started c /\ c_awaited c0 = S (c_awaited c))
     end.
-    { destruct r; cbn; auto. unfold on_out_of_ammo. cbn. destruct (c_start_awaited c); cbn; auto. }
+    { destruct r; cbn; auto. unfold on_out_of_ammo. cbn. destruct (c_start_awaited c) eqn:SA; cbn; auto.
+      match goal with |- context [fold_left apply_cancel ooa ?c0] => destruct (fold_cancel_fields ooa c0 NR) as (A & B & C & D) end.
+      cbn in *. rewrite A, B, C, D. auto. }
     destruct C2 as (D1 & D2 & D3 & D4). destruct CF as (F1 & F2 & F3 & F4).
     constructor; cbn.
     + intro R. rewrite F1, D2. destruct (F4 R) as [R'|[A L]]; [congruence|].
@@ -204,12 +217,12 @@ Proof.
       eapply Permutation_trans; [exact If|]. apply Permutation_app_head. symmetry. exact P.
 Qed.
 
-Lemma erun_inv evs : forall st st', einv st -> erun false st evs = Some st' -> einv st'.
+Lemma erun_inv ooa evs : no_run_cancel ooa = true -> forall st st', einv st -> erun ooa st evs = Some st' -> einv st'.
 Proof.
-  induction evs as [|e r IH]; cbn; intros st st' I H.
+  intro NR. induction evs as [|e r IH]; cbn; intros st st' I H.
   - inversion H; subst. exact I.
-  - destruct (estep false st e) as [st1|] eqn:E; [|discriminate].
-    exact (IH _ _ (estep_inv _ _ _ I E) H).
+  - destruct (estep ooa st e) as [st1|] eqn:E; [|discriminate].
+    exact (IH _ _ (estep_inv _ _ _ _ NR I E) H).
 Qed.
 
 Lemma flat_map_spec l : flat_map shot_reports l = flat_map shot_spec l.
@@ -223,8 +236,9 @@ Lemma requests_lines l : length (flat_map shot_spec l) = fold_right (fun s n => 
 Proof. induction l as [|s r IH]; cbn; [reflexivity|]. rewrite app_length, IH, shot_spec_count. reflexivity. Qed.
 
 (* the theorem *)
-Lemma engine_one_sample_per_fired_request ammo tostart evs st :
-  erun false (einit ammo tostart) evs = Some st ->
+Lemma engine_one_sample_per_fired_request ooa ammo tostart evs st :
+  no_run_cancel ooa = true ->
+  erun ooa (einit ammo tostart) evs = Some st ->
   (* at every moment: written or queued = the samples of the shots that have ended; nothing else is in flight *)
   a_lines (e_a st) ++ a_sink (e_a st) = flat_map shot_spec (w_reported (e_w st)) /\
   Permutation (w_fired (e_w st)) (w_reported (e_w st) ++ inflight (w_insts (e_w st))) /\
@@ -237,7 +251,7 @@ Lemma engine_one_sample_per_fired_request ammo tostart evs st :
    Permutation (w_reported (e_w st)) (w_fired (e_w st)) /\
    length (a_lines (e_a st)) = fired_requests st).
 Proof.
-  intro H. pose proof (erun_inv _ _ _ (einv_init ammo tostart) H) as [Ic In Is Ip Il If].
+  intros NR H. pose proof (erun_inv _ _ NR _ _ (einv_init ammo tostart) H) as [Ic In Is Ip Il If].
   split; [rewrite Il; apply flat_map_spec|]. split; [exact If|].
   intro R. destruct (Ip R) as [RC S0]. destruct (Ic RC) as [A F].
   pose proof (all_awaited_inflight _ F) as NF. rewrite NF, app_nil_r in If. rewrite S0, app_nil_r in Il.
@@ -248,14 +262,14 @@ Proof.
 Qed.
 
 (* every later event leaves a stopped run as it is, as far as the results go *)
-Lemma engine_results_final ammo tostart evs st evs2 st2 :
-  erun false (einit ammo tostart) evs = Some st -> a_running (e_a st) = false ->
-  erun false st evs2 = Some st2 ->
+Lemma engine_results_final ooa st evs2 st2 :
+  a_running (e_a st) = false ->
+  erun ooa st evs2 = Some st2 ->
   a_running (e_a st2) = false.
 Proof.
-  intros _ R. revert st R st2. induction evs2 as [|e r IH]; cbn; intros st R st2 H.
+  intros R. revert st R st2. induction evs2 as [|e r IH]; cbn; intros st R st2 H.
   - inversion H; subst. exact R.
-  - destruct (estep false st e) as [st1|] eqn:E; [|discriminate]. apply (IH st1); [|exact H].
+  - destruct (estep ooa st e) as [st1|] eqn:E; [|discriminate]. apply (IH st1); [|exact H].
     destruct st as [w c a]. cbn in *.
     destruct e; cbn in E;
       repeat match type of E with
@@ -274,11 +288,11 @@ Definition lost_witness_trace : list eev :=
   [EStart; EAcquire 0; EStart; EAcquire 1; EAwait 1; EAggrStop; EReport 0; ECtxDone 0; EAwait 0; EStartRes].
 
 Lemma engine_cancel_run_loses_requests :
-  exists st, erun true (einit [lost_witness_shot] 5) lost_witness_trace = Some st /\
+  exists st, erun [CcRun] (einit [lost_witness_shot] 5) lost_witness_trace = Some st /\
              eover st = true /\ Forall (fun s => s = IAwaited) (w_insts (e_w st)) /\
              fired_requests st = 1 /\ a_lines (e_a st) = [] /\
              (* the same trace is one of engine.go's await loop as far as the out-of-ammo result; there the aggregator may not stop *)
-             erun false (einit [lost_witness_shot] 5) lost_witness_trace = None.
+             erun engine_ooa (einit [lost_witness_shot] 5) lost_witness_trace = None.
 Proof.
   eexists. split; [vm_compute; reflexivity|]. repeat split; try (vm_compute; reflexivity).
   repeat constructor.
@@ -287,6 +301,6 @@ Qed.
 (* the harness' slow-target trace: all lines with engine.go's loop, for any list of shots of one request each *)
 Lemma engine_example_slow :
   let shots := [lost_witness_shot; ShGrpc [103%N] (GCalled 14%N); lost_witness_shot] in
-  slow_run_lines false shots = flat_map shot_spec shots /\ slow_run_over false shots = true /\
-  slow_run_lines true shots = [] /\ slow_run_over true shots = true.
+  slow_run_lines engine_ooa shots = flat_map shot_spec shots /\ slow_run_over engine_ooa shots = true /\
+  slow_run_lines [CcRun] shots = [] /\ slow_run_over [CcRun] shots = true.
 Proof. vm_compute. repeat split; reflexivity. Qed.
